@@ -33,7 +33,8 @@ def gen_cases(ctx, tier):
     rng.shuffle(pool)
     corpus = [{"k": "named", "name": "yellow"}, {"k": "named", "name": "white"}, {"k": "named", "name": "red"},
               {"k": "hsl", "in": [120.0, 50.0, 50.0, 1.0]}, {"k": "hsl", "in": [120.0, 50.0, 95.0, 0.5]},
-              {"k": "rgb", "in": [10.0, 200.0, 30.0, 0.5]}, {"k": "hwb", "in": [40.0, 10.0, 10.0, 1.0]},
+              {"k": "rgb", "in": [10.0, 200.0, 30.0, 0.5]}, {"k": "hwb", "in": [40.0, 10.0, 10.0, 1.0]}, {"k": "hwb", "in": [30.0, 10.0, 20.0, 1.0]},
+              {"k": "hwb", "in": [370.0, 20.5, 30.0, 1.0]}, {"k": "hwb", "in": [200.0, 7.0, 61.0, 0.5]},
               {"k": "hex", "in": [18, 52, 86]}]
     n = 230 if tier == "quick" else 4000
     for c in corpus + pool[:n]:
@@ -95,12 +96,14 @@ def coq_term(c, io):
 
 
 K5, K8 = ("known_C32_K5_hsl_exact_compare", "known_C32_K8_out_of_range_source")
+HWB_SAFE = {"mix-same", "invert-twice", "complement-twice", "adjust-hue-360", "adjust-identity", "change-identity",
+            "opacify-transparentize-undo"}
 EQ_NAMES = ["mix-same", "invert-twice", "complement-twice", "adjust-hue-360", "adjust-identity", "scale-identity",
             "change-identity", "lighten-darken-undo", "saturate-desaturate-undo", "opacify-transparentize-undo"]
 
 
 def judge(c, io, r):
-    corr, ll, ld, ls, lds, lo, lt, lg, ul, us, ua, k5, k8 = r
+    corr, ll, ld, ls, lds, lo, lt, lg, ul, us, ua, k5, k8, is_hwb = r
     if any(x[0] in ("panic", "crash") for x in io):
         corr = 0
     eqs = [base.eq_answer(x) for x in io[11:21]]
@@ -124,7 +127,9 @@ def judge(c, io, r):
             ok = True
         if nm == "opacify-transparentize-undo" and not ua:
             ok = True
-        cl.append((nm, ok, cls((k5, K5), (k8, K8))))
+        # a colour kept in hwb form is compared with an hwb / rgb result through rgba channels: K5 does not apply there
+        k5_here = k5 and not (is_hwb and nm in HWB_SAFE)
+        cl.append((nm, ok, cls((k5_here, K5), (k8, K8))))
     return {"corr": None if corr == 2 else (corr == 1), "clauses": cl, "nontrivial": c["amt"] != 0,
             "tags": [c["k"]] + [n for f, n in ((k5, "K5"), (k8, "K8")) if f],
             "show": f"{expr_of(c)} amount {base.ntext(c['amt'])}% alpha {base.ntext(c['aamt'])} weight {base.ntext(c['w'])}%",
